@@ -85,11 +85,17 @@ def _scenario(code, want):
     # B: the k items its input did yield are delivered as usual; nothing of B succeeds beyond them
     # (what B's consumer sees beyond them is not specified by the statement; for the unordered iterator the failure record
     # takes the place of one announced item, so the check is made for the ordered one only)
+    B.observe()
     if kind_b == 'imap':
-        B.observe()
         good = [v for ok, v in B.outcomes if ok]
         if good != [('r', 'b%d' % j) for j in range(k)]:
             return fail('C01:items-of-the-failing-submission-lost-or-invented')
+    # ... and B as a whole comes to an end: its consumer reaches the end of the iteration instead of waiting for ever, and the handle
+    # leaves the cache (otherwise close() + join() wait on it)
+    if not B.complete():
+        return fail('C01:M4:never-resolved:submission-with-a-failing-input:' + kind_b)
+    if any(h is hb for h in p._cache.values()):
+        return fail('C01:M5:resolved-job-stays-in-the-cache:submission-with-a-failing-input:' + kind_b)
     return True
 
 
